@@ -17,6 +17,8 @@ pub enum AOp {
     /// like Read, over ReadBuf::uninit with only `init` unfilled bytes initialised
     ReadU(usize, usize, usize),
     Write(Vec<u8>),
+    /// `poll_write_vectored` (default: `poll_write` of the first non-empty slice)
+    WriteV(Vec<Vec<u8>>),
     Flush,
     Shutdown,
 }
@@ -29,6 +31,7 @@ pub fn ops_str(ops: &[AOp]) -> String {
             AOp::Read(p, c) => format!("r{}:{}", p, c),
             AOp::ReadU(p, c, i) => format!("r{}:{}:{}", p, c, i),
             AOp::Write(d) => format!("w{}", hex(d)),
+            AOp::WriteV(l) => format!("W{}", l.iter().map(|d| hex(d)).collect::<Vec<_>>().join("+")),
             AOp::Flush => "f".into(),
             AOp::Shutdown => "s".into(),
         })
@@ -51,6 +54,7 @@ pub fn parse_ops(s: &str) -> Option<Vec<AOp>> {
                 }
             }
             b'w' => AOp::Write(unhex(&t[1..])?),
+            b'W' => AOp::WriteV(if t.len() == 1 { vec![] } else { t[1..].split('+').map(unhex).collect::<Option<Vec<Vec<u8>>>>()? }),
             b'f' if t.len() == 1 => AOp::Flush,
             b's' if t.len() == 1 => AOp::Shutdown,
             _ => return None,
@@ -94,6 +98,14 @@ fn drive<T: AsyncRead + AsyncWrite + Unpin>(x: &mut T, ops: &[AOp]) -> String {
                 Poll::Ready(Err(e)) => out.push(format!("werr{}", kind_num(e.kind()))),
                 Poll::Pending => out.push("wpending".into()),
             },
+            AOp::WriteV(l) => {
+                let ios: Vec<std::io::IoSlice> = l.iter().map(|d| std::io::IoSlice::new(d)).collect();
+                match Pin::new(&mut *x).poll_write_vectored(&mut cx, &ios) {
+                    Poll::Ready(Ok(n)) => out.push(format!("wok{}", n)),
+                    Poll::Ready(Err(e)) => out.push(format!("werr{}", kind_num(e.kind()))),
+                    Poll::Pending => out.push("wpending".into()),
+                }
+            }
             AOp::Flush => match Pin::new(&mut *x).poll_flush(&mut cx) {
                 Poll::Ready(Ok(())) => out.push("fok".into()),
                 Poll::Ready(Err(e)) => out.push(format!("ferr{}", kind_num(e.kind()))),
@@ -303,7 +315,7 @@ pub fn run(mode: &str, thorough: bool, seed: u64, w: &mut impl std::io::Write) {
             let wa = [WAct::Full, WAct::Part(1), WAct::Part(15), WAct::Part(16), WAct::Zero, WAct::Err(2), WAct::Err(5), WAct::Pending];
             let p16: Vec<u8> = (0..16u8).map(|i| b'A' + i).collect();
             let p64: Vec<u8> = (0..64u8).map(|i| b'a' + i % 26).collect();
-            let wops = vec![AOp::Write(p16.clone()), AOp::Read(1, 4), AOp::Write(p64.clone()), AOp::Flush, AOp::Write(b"123456789".to_vec()), AOp::Shutdown, AOp::Read(0, 16)];
+            let wops = vec![AOp::Write(p16.clone()), AOp::Read(1, 4), AOp::Write(p64.clone()), AOp::Flush, AOp::Write(b"123456789".to_vec()), AOp::WriteV(vec![vec![], b"vw".to_vec(), p16.clone()]), AOp::WriteV(vec![]), AOp::WriteV(vec![p64.clone(), b"x".to_vec()]), AOp::Shutdown, AOp::Read(0, 16)];
             for ws in seqs(&wa, 3) {
                 for fa in [vec![], vec![Some(5u8)], vec![Some(255u8), None]] {
                     let mut s2 = ASrw::new(2, b"cdcdcdcdcdcdcdcdcdcd", vec![RAct::Data(3, false)]);
@@ -374,7 +386,7 @@ pub fn run(mode: &str, thorough: bool, seed: u64, w: &mut impl std::io::Write) {
             let wa = [WAct::Full, WAct::Part(1), WAct::Part(15), WAct::Part(16), WAct::Zero, WAct::Err(2), WAct::Err(5), WAct::Pending];
             let p16: Vec<u8> = (0..16u8).map(|i| b'A' + i).collect();
             let p64: Vec<u8> = (0..64u8).map(|i| b'a' + i % 26).collect();
-            let wops = vec![AOp::Write(p16.clone()), AOp::Read(1, 4), AOp::Write(p64.clone()), AOp::Flush, AOp::Write(b"123456789".to_vec()), AOp::Shutdown, AOp::Read(0, 16)];
+            let wops = vec![AOp::Write(p16.clone()), AOp::Read(1, 4), AOp::Write(p64.clone()), AOp::Flush, AOp::Write(b"123456789".to_vec()), AOp::WriteV(vec![vec![], b"vw".to_vec(), p16.clone()]), AOp::WriteV(vec![]), AOp::WriteV(vec![p64.clone(), b"x".to_vec()]), AOp::Shutdown, AOp::Read(0, 16)];
             for ws in seqs(&wa, 3) {
                 for fa in [vec![], vec![Some(5u8)], vec![Some(255u8), None]] {
                     let mut s2 = ASrw::new(2, b"cdcdcdcdcdcdcdcdcdcd", vec![RAct::Data(3, false)]);
